@@ -10,7 +10,7 @@ Nothing is executed."""
 import ast
 
 from ..index import AnalysisError
-from ..norm import Canon, copy_source
+from ..norm import Canon, copy_source, resolve_object
 from ..paths import Frame
 from .common import short
 
@@ -32,17 +32,27 @@ def init_state(repo, canon, cls_name):
                 if isinstance(k, ast.Constant):
                     put('%s[%r]' % (loc, k.value), x)
 
+    env = {}
+
     def block(stmts, cond):
         for st in stmts:
             if isinstance(st, ast.Assign):
+                val = resolve_object(st.value, env)
                 for t in st.targets:
+                    if isinstance(t, ast.Name):
+                        if cond:
+                            env.pop(t.id, None)
+                        else:
+                            env[t.id] = val
                     if isinstance(t, (ast.Attribute, ast.Subscript)):
                         loc = canon.c(t, fr)
                         if cond:
                             unknown.add(loc)
                             state.pop(loc, None)
                         else:
-                            put(loc, st.value)
+                            put(loc, val)
+                            if isinstance(t, ast.Attribute) and isinstance(t.value, ast.Name) and t.value.id == 'self':
+                                env['self.' + t.attr] = val
             elif isinstance(st, ast.AugAssign) and isinstance(st.target, (ast.Attribute, ast.Subscript)):
                 loc = canon.c(st.target, fr)
                 unknown.add(loc)
@@ -60,6 +70,7 @@ def size_of(canon, fr, state, v, d=0):
     """symbolic size of the container value v: an int, a string 'len(<loc>)', or None"""
     if d > 6 or v is None:
         return None
+    v = resolve_object(v, {})          # {'a': X}['a'] is X
     if isinstance(v, (ast.List, ast.Tuple, ast.Set)) and not any(isinstance(x, ast.Starred) for x in v.elts):
         return len(v.elts)
     if isinstance(v, ast.Dict) and all(k is not None for k in v.keys):
